@@ -516,7 +516,7 @@ class PrimitiveDummyLinearAngle(LinearAngleBase):
         self, x: "CartesianCoordinates"
     ) -> DifferentiableVector3D:
         """Create the dummy atom r"""
-        _x = x.reshape(-1, 3)
+        _x = np.asarray(x, dtype=float).reshape(-1, 3)
         cart_axes = [
             np.array([1.0, 0.0, 0.0]),
             np.array([0.0, 1.0, 0.0]),
